@@ -109,6 +109,17 @@ def gen(rng, tier):
         tys = [[n, ty(shapes[n])] for n in ["in", a, b, "out"]]
         rng.shuffle(tys)
         cases.append({"kind": "rand", "nodes_t": tys, "edges": [["in", mid], [mid, "out"]]})
+    # value-equal shapes held in arrays of different numeric KIND (float against int, e.g. from 64 / 2): consistent
+    for _ in range(16 if tier == "quick" else 160):
+        sh = [rng.randint(1, 40) for _ in range(rng.choice([1, 2, 3]))]
+        fl = {"nd": [float(x) for x in sh], "dt": rng.choice(["float64", "float32"])}
+        other = list(sh)
+        if rng.random() < 0.3:
+            other[rng.randrange(len(other))] += 1
+        tys = [["a", {"in": [["input", fl]], "out": [["output", fl]]}], ["b", {"in": [["input", other]], "out": [["output", other]]}]]
+        if rng.random() < 0.5:
+            tys.reverse()
+        cases.append({"kind": "rand", "nodes_t": tys, "edges": rng.choice([[["a", "b"]], [["b", "a"]], [["a", "b"], ["b", "a"]]])})
     for _ in range(24 if tier == "quick" else 240):
         dt = rng.choice(["uint8", "int8", "int16", "uint16", "int32"])
         bits = np.dtype(dt).itemsize * 8
@@ -173,6 +184,8 @@ def gen(rng, tier):
                 edges.append([a, b])
         rng.shuffle(edges)
         c = {"kind": "rand", "nodes_t": tys, "edges": edges}
+        if edges and rng.random() < 0.15:
+            c["edge_lists"] = True
         if rng.random() < 0.3:
             # a history on ONE graph object: check, re-assign some node types (names and edges unchanged), check again
             tys2 = []
@@ -188,8 +201,11 @@ def gen(rng, tier):
 
 
 def recipe(c):
-    return {"k": "NIRGraph", "nodes": {nm: leaf(t["in"], t["out"]) for nm, t in c["nodes_t"]},
-            "edges": [tuple(e) for e in c["edges"]]}
+    r = {"k": "NIRGraph", "nodes": {nm: leaf(t["in"], t["out"]) for nm, t in c["nodes_t"]},
+         "edges": [tuple(e) for e in c["edges"]]}
+    if c.get("edge_lists"):
+        r["edge_lists"] = True       # edges as 2-element lists (unhashable)
+    return r
 
 
 def defined_shape(t):
